@@ -17,5 +17,6 @@ MC_UserParams == <<>>
 MC_LockNames == {}
 MC_CallerIds == 1..NCallers
 \* the parameter tree is compared on every transition of MC_Shape / MC_Params; here the frames and the header are exported
+MC_Files == <<>>
 Dump == PrintT(ToJson([path |-> hist, op |-> lastOp', out |-> lastOut', post |-> [hdr |-> AbsHdr(obj'.hdr), frm |-> obj'.frm]]))
 =========================================================================
